@@ -2,6 +2,8 @@
 """Build corpus/<id>.ops from the failing inputs the checks find on every seeded change (and the historical
 defect witnesses): these cases then run FIRST in every check, so a regression of the same kind is caught
 independently of the seed."""
+import os
+os.environ["VERIF_EVIDENCE_DIR"] = "/verif/.build/evidence-scratch"
 import sys, os, subprocess, json, re, glob, collections
 def sh(c, cwd=None):
     return subprocess.run(c, shell=True, cwd=cwd, stdout=subprocess.PIPE, stderr=subprocess.STDOUT, text=True).stdout
